@@ -9,6 +9,7 @@ package main
 
 import (
 	"fmt"
+	"os"
 	"reflect"
 	"runtime/debug"
 	"time"
@@ -47,7 +48,7 @@ func scenarios(tier string) []engine.Scenario {
 					}
 					c.Cover("type", e.name)
 					c.Cover("family", f.name)
-					f.run(&lc{c: c, cat: cat, e: e, vi: vi, o: o, name: name})
+					f.run(&lc{c: c, cat: cat, e: e, vi: vi, o: o, name: name, seed: c.Seed})
 				}})
 			}
 		}
@@ -90,6 +91,10 @@ func expect(tier string) []string {
 func main() {
 	// a decoder recursing forever should end the worker in milliseconds, not after growing a 1 GB stack
 	debug.SetMaxStack(64 << 20)
+	if os.Getenv("C08_CHILD") == "1" {
+		childMain()
+		return
+	}
 	engine.Main(engine.Check{
 		ID:    "C08",
 		Level: "fault_enumeration",
